@@ -331,3 +331,8 @@ def replay(ctx, payload):
     if d:
         return "model/implementation disagreement: " + str({k: d[0][k] for k in ("what", "request", "model", "impl")})[:500]
     return None
+
+
+def explore_shard(ctx):
+    """extra parallel shard of the thorough tier"""
+    return explore_c14(ctx, 2200, steps=5)
